@@ -70,6 +70,11 @@ ASSUMPTIONS = [
     'whose failures are violations but whose passing proves nothing about byte-code level interleavings',
     'the ledger data reachable from a connection (every directive and posting with its meta dict) is fingerprinted '
     'after every workload statement (incl. any_meta/entry_meta/getitem/meta queries): queries must not write it',
+    'translator tie (C20_source_no_connection_cache, group params regenerated by this check too): trusted are the '
+    'translator py2mini/src_api, the PyMini interpreter and the primitives of Model/PrimsApi.v; the cursor made by '
+    'Connection.cursor() and its execute are opaque (what Cursor.execute stores on the CURSOR is C10\'s tie; that it '
+    'stores nothing on the connection is not seen by this theorem but by the inventory\'s connection-attribute diff); '
+    'Connection.attach and the part of __init__ after the leading self.<attr> assignments are not translated',
 ]
 
 # --------------------------------------------------------------------------
@@ -2001,7 +2006,12 @@ Definition query_time_shared_cells : list cell_id :=
        cbool(inv['astw']),
        clist([c for c, _ in inv['cells']]))
     core.write_if_changed(core.COQ + '/Gen/SharedState.v', text)
+    # translator tie (bld-misc): Properties/C20.v restates the C09 source theorems about the Connection wrappers
+    # (C20_source_no_connection_cache), so the terms they are about are regenerated by THIS check, too
+    from . import gen_src
+    src_info = gen_src.generate('params')
     return {
+        **src_info,
         'shared_state_scan': {
             'modules_scanned': len(inv['modules']), 'functools_caches': inv['caches'],
             'mutable_containers': len(inv['containers']), 'scalars_fingerprinted': inv['scalars'],
